@@ -204,7 +204,7 @@ func init() {
 	add("C14", ruleR14_7)
 	add("C03", ruleR14_7)
 	add("C16", ruleR13_1)
-	add("C17", ruleR11_1, ruleR06_2)
+	add("C17", ruleR11_1, ruleR06_2, ruleR17_8)
 	add("C18", ruleR05_2)
 	add("C20", ruleR09_2)
 	for _, id := range []string{"C04", "C13"} {
